@@ -2,3 +2,4 @@ pub mod seqexact;
 pub mod bitsprops;
 pub mod quadprops;
 pub mod c08;
+pub mod c17;
